@@ -1,5 +1,6 @@
 import IndicatifModel.Model.Adaptors
 import IndicatifModel.Model.IterWrap
+import IndicatifModel.Generated.Overrides
 /-!
 # C17 — adaptors count exactly (I/O wrappers, model level)
 -/
@@ -178,5 +179,27 @@ theorem C17_stream_polls {α : Type} : ∀ (polls : List (Option (Option α))) (
   | some r :: ps, b => by
     simp only [List.foldl_cons, onPoll, List.filterMap_cons, id, barAfter]
     exact C17_stream_polls ps (onItem b r)
+
+/-- **the source as regenerated** (`tools/gen_overrides.py`, every run): the trait methods `ProgressBarIter` defines itself are
+exactly the ones the adaptor models transcribe — `next`, `size_hint`, `len`, `next_back` for iterators; `read`, `read_vectored`,
+`read_to_string`, `read_exact`, `fill_buf`, `consume`, `seek`, `stream_position`, `write`, `write_vectored`, `flush` for blocking
+I/O; the `poll_*` / `start_seek` / `consume` methods of the tokio traits and `poll_next`, `size_hint` of `Stream`. Every other
+method of these traits (`nth`, `step_by`, `fold`, `read_to_end`, `write_all`, `write_fmt`, …) is the standard library's provided
+one and reaches the wrapped value only through these, which is what "every adaptive caller" in `C17_iter_transparent` /
+`C17_iter_counts` covers. A new override (or a removed one) changes the list and this theorem is no longer checked. -/
+theorem C17_source_overrides : Generated.iterOverrides = [
+    ("Iterator", ["next", "size_hint"]),
+    ("ExactSizeIterator", ["len"]),
+    ("DoubleEndedIterator", ["next_back"]),
+    ("FusedIterator", []),
+    ("io::Read", ["read", "read_vectored", "read_to_string", "read_exact"]),
+    ("io::BufRead", ["fill_buf", "consume"]),
+    ("io::Seek", ["seek", "stream_position"]),
+    ("tokio::io::AsyncWrite", ["poll_write", "poll_flush", "poll_shutdown"]),
+    ("tokio::io::AsyncRead", ["poll_read"]),
+    ("tokio::io::AsyncSeek", ["start_seek", "poll_complete"]),
+    ("tokio::io::AsyncBufRead", ["poll_fill_buf", "consume"]),
+    ("futures_core::Stream", ["poll_next", "size_hint"]),
+    ("io::Write", ["write", "write_vectored", "flush"])] := by decide
 
 end IndicatifModel.IterWrap
